@@ -1,4 +1,208 @@
-import CTM.Model.Validate
+/-
+  Property C16: "Validation rewrites identifiers and integers without altering
+  the data" - theorems about the model `CTM.Model.Validate`.
+  Helper lemmas: `CTM.Lemmas.Validate`.
+
+  Not covered here (checked by the test harness, not provable on the model):
+  "validating an h5ad file never modifies it" (a file-system fact) and "same
+  cells in the same order with the same annotations" (obs is copied verbatim).
+-/
+import CTM.Lemmas.Validate
+
 namespace CTM.C16
-theorem placeholder_true : True := trivial
+open CTM.Validate
+
+/-! ### rounding: "every value moved by at most one half to an integer" -/
+
+/-- "every value moved by at most one half to an integer": `np.round` (nearest
+integer, ties to even) moves no value by more than one half. -/
+theorem round_half (x : Rat) :
+    -(1/2) ≤ (roundHalfEven x : Rat) - x ∧ (roundHalfEven x : Rat) - x ≤ 1/2 :=
+  CTM.Validate.round_half x
+
+example : roundHalfEven (5/2) = 2 ∧ roundHalfEven (7/2) = 4 ∧ roundHalfEven (-5/2) = -2 ∧
+    roundHalfEven (511/2) = 256 ∧ roundHalfEven (-1/2) = 0 ∧ roundHalfEven (7/4) = 2 := by
+  decide +kernel
+
+/-- Rounding is monotone: the rounded minimum and maximum bound every rounded
+value (this is why the integer type can be chosen from min and max alone). -/
+theorem round_mono {x y : Rat} (h : x ≤ y) : roundHalfEven x ≤ roundHalfEven y :=
+  CTM.Validate.round_mono h
+
+example : roundHalfEven (5/2) ≤ roundHalfEven (7/2) := round_mono (by norm_num)
+
+/-- A value that already is an integer is not moved at all. -/
+theorem round_int (n : Int) : roundHalfEven (n : Rat) = n :=
+  CTM.Validate.round_int n
+
+example : roundHalfEven ((-7 : Int) : Rat) = -7 := round_int (-7)
+
+/-- Ties go to the even neighbour (`np.round` semantics). -/
+theorem round_tie_even (x : Rat) (h : x - (x.floor : Rat) = 1/2) : roundHalfEven x % 2 = 0 :=
+  CTM.Validate.round_tie_even x h
+
+example : roundHalfEven (255 + 1/2) % 2 = 0 :=
+  round_tie_even _ (by rw [show (255 + 1/2 : Rat).floor = 255 by decide +kernel]; norm_num)
+
+/-! ### the integer type: "held in an integer type wide enough for all values"
+
+All statements of this section are for the *exact* comparison of the rounded
+bounds with the limits of the integer types (`floatBits = none`).  For the
+comparison in the floating-point type of the bounds (what the source does for
+float32 / float64 input with NumPy ≥ 2) the statement is false: see
+`dtype_float_compare_too_narrow`. -/
+
+/-- "an integer type wide enough for all values": when the ladder of integer
+types has a rung accepting the rounded minimum and maximum, every value between
+minimum and maximum rounds to an integer inside that rung's range. -/
+theorem dtype_fits {mn mx v : Rat} {r : Rung}
+    (h : Generated.intLadder.find? (rungAccepts none (roundHalfEven mn) (roundHalfEven mx)) = some r)
+    (h1 : mn ≤ v) (h2 : v ≤ mx) : castTo r v = some (roundHalfEven v) :=
+  find_fits h h1 h2
+
+example : Generated.intLadder.find? (rungAccepts none (roundHalfEven (-3/2)) (roundHalfEven (255 + 1/2)))
+    = some ("int16", -32768, 32767) := by decide +kernel
+
+/-- The chosen rung is the first of the ladder that fits: it accepts the
+bounds and no earlier rung does. -/
+theorem dtype_first {mn mx : Rat} {r : Rung}
+    (h : Generated.intLadder.find? (rungAccepts none (roundHalfEven mn) (roundHalfEven mx)) = some r) :
+    chooseIntDtype none mn mx = r ∧
+    (r.2.1 ≤ roundHalfEven mn ∧ roundHalfEven mx ≤ r.2.2) ∧
+    ∃ pre post, Generated.intLadder = pre ++ r :: post ∧
+      ∀ q ∈ pre, ¬ (q.2.1 ≤ roundHalfEven mn ∧ roundHalfEven mx ≤ q.2.2) := by
+  obtain ⟨hp, pre, post, e, hq⟩ := find_first h
+  refine ⟨chooseIntDtype_of_find h, (rungAccepts_none_iff _ _ _).1 hp, pre, post, e, ?_⟩
+  intro q hq' hacc
+  have := hq q hq'
+  rw [(rungAccepts_none_iff _ _ _).2 hacc] at this
+  cases this
+
+example : chooseIntDtype none (-3/2) (255 + 1/2) = ("int16", -32768, 32767) := by decide +kernel
+
+/-- A rung exists whenever the rounded bounds fit uint64 or int64 (proved on
+the generated ladder: fails to build if these two types leave the ladder). -/
+theorem dtype_exists {mn mx : Rat}
+    (h : (0 ≤ roundHalfEven mn ∧ roundHalfEven mx ≤ 18446744073709551615) ∨
+      (-9223372036854775808 ≤ roundHalfEven mn ∧ roundHalfEven mx ≤ 9223372036854775807)) :
+    ∃ r, Generated.intLadder.find?
+      (rungAccepts none (roundHalfEven mn) (roundHalfEven mx)) = some r :=
+  ladder_exists _ _ h
+
+example : ∃ r, Generated.intLadder.find?
+    (rungAccepts none (roundHalfEven 0) (roundHalfEven 18446744073709551615)) = some r :=
+  dtype_exists (Or.inl (by decide +kernel))
+
+/-- "values at integer-type boundaries such as 255.5 and 65535.5": 255.5 rounds
+to 256 and needs uint16, 254.5 rounds to 254 and stays uint8, 65535.5 needs
+uint32, -0.5 rounds to 0 and stays unsigned, -0.51 needs a signed type. -/
+theorem dtype_boundaries :
+    chooseIntDtype none 0 (255 + 1/2) = ("uint16", 0, 65535) ∧
+    chooseIntDtype none 0 (509/2) = ("uint8", 0, 255) ∧
+    chooseIntDtype none 0 (65535 + 1/2) = ("uint32", 0, 4294967295) ∧
+    chooseIntDtype none (-1/2) 3 = ("uint8", 0, 255) ∧
+    chooseIntDtype none (-51/100) 3 = ("int8", -128, 127) ∧
+    chooseIntDtype none (-51/100) 128 = ("int16", -32768, 32767) ∧
+    chooseIntDtype none 0 4294967296 = ("uint64", 0, 18446744073709551615) ∧
+    chooseIntDtype none (-1) 18446744073709551615 =
+      ("int64", -9223372036854775808, 9223372036854775807) := by
+  decide +kernel
+
+/-- "wide enough for all values": with exact comparison, if some rung accepts
+the bounds then every value of a list bounded by `mn` and `mx` fits the chosen
+type (no entry is cast out of range). -/
+theorem chosen_dtype_holds_all {mn mx : Rat} {r : Rung} {vals : List Rat}
+    (h : Generated.intLadder.find? (rungAccepts none (roundHalfEven mn) (roundHalfEven mx)) = some r)
+    (hb : ∀ v ∈ vals, mn ≤ v ∧ v ≤ mx) :
+    vals.map (castTo (chooseIntDtype none mn mx)) = vals.map (fun v => some (roundHalfEven v)) := by
+  rw [chooseIntDtype_of_find h]
+  apply List.map_congr_left
+  intro v hv
+  exact find_fits h (hb v hv).1 (hb v hv).2
+
+example : [1/2, 255 + 1/2, 0].map (castTo (chooseIntDtype none 0 (255 + 1/2))) = [some 0, some 256, some 0] := by
+  decide +kernel
+
+/-- FINDING (the statement "wide enough" is false for the source as it is):
+when the bounds are float32 scalars, `choose_int_dtype` compares them with the
+limits converted to float32; 4294967295 becomes 4294967296.0, so uint32 is
+chosen for a maximum of 2^32, which it cannot hold.  Same for float64 at 2^64
+(uint64) and 2^63 (int64). -/
+theorem dtype_float_compare_too_narrow :
+    (chooseIntDtype (some 24) 0 4294967296 = ("uint32", 0, 4294967295) ∧
+      castTo ("uint32", 0, 4294967295) 4294967296 = none) ∧
+    (chooseIntDtype (some 53) 0 18446744073709551616 = ("uint64", 0, 18446744073709551615) ∧
+      castTo ("uint64", 0, 18446744073709551615) 18446744073709551616 = none) ∧
+    (chooseIntDtype (some 53) (-5) 9223372036854775808 =
+        ("int64", -9223372036854775808, 9223372036854775807) ∧
+      castTo ("int64", -9223372036854775808, 9223372036854775807) 9223372036854775808 = none) := by
+  decide +kernel
+
+example : Generated.intLadderExactCompare = false := rfl
+
+/-! ### gene identifiers -/
+
+/-- "the same genes in the same order": the mapped list has one entry per input gene. -/
+theorem genes_length {lookup : List (Name × Name)} {placeholder : Nat → Name} {start : Nat}
+    {genes : List Name} {o : MapOut} (h : mapGenes lookup placeholder start genes = .ok o) :
+    o.mapped.length = genes.length := by
+  rw [(mapGenes_ok h).1, List.length_map, renameFrom_length]
+
+example : mapGenes demoLookup demoPlaceholder 2 demoInput.genes =
+    .ok ⟨[['E','N','S','G','0','1'], ['E','N','S','G','0','7'], ['u','_','x','x'], ['u','_','x','x','x']], 2, 4⟩ := by
+  decide +kernel
+
+/-- "Ensembl identifiers are kept (minus version suffix), known gene symbols are
+replaced by their Ensembl identifier, unknown ones by placeholders": entry `i`
+of the output is computed from entry `i` of the input (order preserved); the
+placeholder counter is the start value plus the number of unknown names before `i`. -/
+theorem genes_pointwise {lookup : List (Name × Name)} {placeholder : Nat → Name} {start : Nat}
+    {genes : List Name} {o : MapOut} (h : mapGenes lookup placeholder start genes = .ok o)
+    (i : Nat) (hi : i < genes.length) :
+    o.mapped[i]? = some (stripSuffix (
+      if isEnsembl genes[i] then genes[i]
+      else match lookup.lookup genes[i] with
+        | some e => e
+        | none => placeholder (start +
+            (genes.take i).countP (fun g => !isEnsembl g && (lookup.lookup g).isNone)))) := by
+  rw [(mapGenes_ok h).1, List.getElem?_map, renameFrom_getElem?, List.getElem?_eq_getElem hi]
+  rfl
+
+example : demoInput.genes[2]? = some ['x','y'] ∧ isEnsembl ['x','y'] = false ∧
+    demoLookup.lookup ['x','y'] = none ∧ stripSuffix (demoPlaceholder (2 + 0)) = ['u','_','x','x'] := by
+  decide +kernel
+
+/-- "the number of mapped genes": the reported number of unmapped genes is the
+number of unknown names, and the placeholder counter advanced by exactly that. -/
+theorem genes_unmapped_count {lookup : List (Name × Name)} {placeholder : Nat → Name} {start : Nat}
+    {genes : List Name} {o : MapOut} (h : mapGenes lookup placeholder start genes = .ok o) :
+    o.nUnmapped = genes.countP (fun g => !isEnsembl g && (lookup.lookup g).isNone) ∧
+    o.ct = start + o.nUnmapped := by
+  obtain ⟨_, h2, h3⟩ := mapGenes_ok h
+  exact ⟨h2, by rw [h3, h2]⟩
+
+example : demoInput.genes.countP (fun g => !isEnsembl g && (demoLookup.lookup g).isNone) = 2 := by
+  decide +kernel
+
+/-- "placeholders unique within the file": if the placeholder names (after the
+suffix cut) of different counters differ, two different unknown genes get
+different names. -/
+theorem placeholders_distinct {lookup : List (Name × Name)} {placeholder : Nat → Name} {start : Nat}
+    {genes : List Name} {o : MapOut} (h : mapGenes lookup placeholder start genes = .ok o)
+    (hinj : Function.Injective (fun k => stripSuffix (placeholder k)))
+    {i j : Nat} (hij : i < j) (hj : j < genes.length)
+    (hui : isEnsembl genes[i] = false ∧ lookup.lookup genes[i] = none)
+    (huj : isEnsembl genes[j] = false ∧ lookup.lookup genes[j] = none) :
+    o.mapped[i]? ≠ o.mapped[j]? := by
+  rw [genes_pointwise h i (by omega), genes_pointwise h j hj]
+  simp only [hui.1, hui.2, huj.1, huj.2, Bool.false_eq_true, if_false]
+  intro e
+  have e' := hinj (Option.some.inj e)
+  have hlt := countP_take_lt (p := fun g => !isEnsembl g && (lookup.lookup g).isNone)
+    hij (Nat.le_of_lt hj)
+    ⟨genes[i], List.getElem?_eq_getElem (by omega), by simp [hui.1, hui.2]⟩
+  omega
+
+example : Function.Injective (fun k => stripSuffix (demoPlaceholder k)) := demoPlaceholder_injective
+
 end CTM.C16
